@@ -254,6 +254,16 @@ pub fn draw_plan(ops: &[Op], class: FaultClass, r: &mut Rng) -> Plan {
             t -= c.2;
         }
     }
+    // a hard fault or a crash is sometimes preceded or followed by a harmless one (two things
+    // going wrong in one invocation); the verdict still follows the stronger class
+    if matches!(class, FaultClass::Hard | FaultClass::Crash) && r.chance(1, 3) {
+        let extra = draw_plan(ops, FaultClass::Benign, r);
+        for e in extra.into_iter().take(1) {
+            if !plan.iter().any(|(i, _)| *i == e.0) {
+                plan.push(e);
+            }
+        }
+    }
     plan.sort();
     plan
 }
